@@ -20,6 +20,11 @@ HINTS = {
         "peer that misbehaves at one particular moment (between two reads, between head and body, during a write, "
         "during shutdown), a resource reused after an error, a counter or index near its limit, a timer that fires "
         "at an awkward instant, two sessions or two requests whose combination matters while each alone is fine.",
+    17: "Look at what no earlier author touched: error and refusal paths, rarely used public entry points and builder options, "
+        "environment-dependent configuration, helpers in ohkami_lib and the macros crate that several features share, the "
+        "meeting point of two built-in fangs or of a fang and the automatic HEAD / OPTIONS / 404 handling, Unicode and case "
+        "folding, and sizes just past an internal buffer (1 KiB request buffer, header tables). The change must not depend on "
+        "the `ws`, `openapi` or non-tokio runtime features.",
     16: "Prefer a change made of TWO cooperating edits in different functions or files that each look harmless alone, "
         "or an optimisation (cache, fast path, buffer reuse, early exit) that is right for ordinary inputs and wrong "
         "for one family of inputs or one order of events.",
